@@ -32,7 +32,7 @@ const classD6Alias = "race:ctree.(*Leaf).Update|ctree.(*Tree).internalDelete"
 
 // SOp is one operation of a worker's program.
 type SOp struct {
-	Kind string   `json:"kind"` // add glv getleaf hval hupd query walk del delcond walkdel
+	Kind string   `json:"kind"` // add glv getleaf hval hupd query walk walksorted del delcond walkdel
 	Path []string `json:"path,omitempty"`
 	Val  int      `json:"val,omitempty"`
 	Slot int      `json:"slot,omitempty"` // handle slot of the worker (getleaf fills, hval/hupd use)
@@ -47,6 +47,8 @@ type Workload struct {
 	// D6); 1 = they never overlap conditional deletes (open finding
 	// conditional-delete-not-atomic-vs-handle-update); 0 = nothing is kept apart.
 	SerialiseUpdateDelete int `json:"serialise_update_delete,omitempty"`
+	// Readers: that many workers (the last ones) only read (labels only).
+	Readers int `json:"readers,omitempty"`
 }
 
 // Three subtrees below the root, two letters further down: paths overlap
@@ -115,11 +117,34 @@ func genWorkload(r *rand.Rand, index int, budget int) *Workload {
 	hupdW := 4 + r.Intn(12)  // weight of handle updates
 	queryW := 6 + r.Intn(10) // weight of query+walk
 	maxDepth := 2 + r.Intn(2)
+	// one history in four: all workers but one or two only read (Query, Walk,
+	// WalkSorted, GetLeafValue) while the writers add and delete many leaves at a
+	// time: what a reader sees of ONE delete is then comparable leaf by leaf
+	// (c10_rdatomic_test.go: nothing else touches the removed leaves meanwhile)
+	readers := 0
+	if workers >= 3 && r.Intn(4) == 0 {
+		readers = workers - 1 - r.Intn(2)
+		delW = 15 + r.Intn(15)
+	}
+	w.Readers = readers
 	for g := 0; g < workers; g++ {
 		var prog []SOp
 		for i := 0; len(prog) < per; i++ {
 			val := (g+1)*1000 + len(prog) + 1
 			x := r.Intn(100)
+			if g >= workers-readers {
+				switch {
+				case x < 40:
+					prog = append(prog, SOp{Kind: "query", Path: randPattern(r)})
+				case x < 55:
+					prog = append(prog, SOp{Kind: "walk"})
+				case x < 85:
+					prog = append(prog, SOp{Kind: "walksorted"})
+				default:
+					prog = append(prog, SOp{Kind: "glv", Path: randPath(r, 1, maxDepth)})
+				}
+				continue
+			}
 			switch {
 			case x < delW:
 				k := "del"
@@ -138,7 +163,11 @@ func genWorkload(r *rand.Rand, index int, budget int) *Workload {
 				}
 			case x < delW+hupdW+queryW:
 				if r.Intn(3) == 0 {
-					prog = append(prog, SOp{Kind: "walk"})
+					k := "walk"
+					if r.Intn(2) == 0 {
+						k = "walksorted"
+					}
+					prog = append(prog, SOp{Kind: k})
 				} else {
 					prog = append(prog, SOp{Kind: "query", Path: randPattern(r)})
 				}
@@ -209,6 +238,8 @@ func (r *stressRun) worker(g int, wg *sync.WaitGroup) {
 		o := HOp{G: g, Kind: op.Kind, Path: op.Path, Val: op.Val}
 		var l *ctree.Leaf
 		switch op.Kind {
+		case "walksorted":
+			o.Kind, o.Sorted = "walk", true
 		case "hval", "hupd":
 			s := &slots[op.Slot%len(slots)]
 			if s.l == nil {
